@@ -151,6 +151,36 @@ def rand_int(rng):
     return rng.randint(-10 ** 30, 10 ** 30)
 
 
+FLOAT_EDGES = [0.0, -0.0, 0.5, -2.25, 123456.75, 1024.0, 5e-324, -5e-324, 2.2250738585072009e-308, 2.2250738585072014e-308,
+               1e-300, 1.5e-07, 2.5e-06, 7.5e-08, 1e-07, 1e-05, 9.999e-05, 9.999999999999999e-05, 0.0001, 0.00010000000000000002,
+               0.001, 0.1, 0.1 + 0.2, 1 / 3.0, 2 / 3.0, 1e15, 9007199254740993.0, 9999999999999998.0, 1e16, 1.0000000000000002e16,
+               1e17, 1.2345678901234568e+17, 1e22, 1e23, 1e100, 1.7976931348623157e308, -1.7976931348623157e308, 4.9e-322,
+               -2.2606631148481385e-299, 3.141592653589793, -1e-05, -1.5e-10, 6.02214076e23, 1.6e-19]
+
+
+def rand_float(rng):
+    import struct
+    r = rng.random()
+    if r < 0.25:
+        return rng.choice(FLOAT_EDGES)
+    if r < 0.5:        # any double: random bit pattern
+        while True:
+            x = struct.unpack('<d', struct.pack('<Q', rng.getrandbits(64)))[0]
+            if x == x and x not in (float('inf'), float('-inf')):
+                return x
+    if r < 0.75:       # small magnitudes with many significant digits: 1e-300 .. 1e-4
+        return rng.choice([1, -1]) * rng.uniform(1, 10) * 10.0 ** rng.randint(-300, -5)
+    if r < 0.85:       # around the two places where repr switches to exponent notation
+        return rng.choice([1, -1]) * rng.uniform(0.5, 2) * rng.choice([1e-4, 1e16])
+    if r < 0.93:       # short decimals
+        return rng.choice([1, -1]) * rng.randint(0, 99999) / 10.0 ** rng.randint(0, 9)
+    return rng.choice([1, -1]) * rng.uniform(1, 10) * 10.0 ** rng.randint(17, 307)
+
+
+def vf(x):
+    return {'t': 'f', 'v': repr(x)}
+
+
 def rand_scalar(rng):
     r = rng.random()
     if r < 0.55:
@@ -297,6 +327,9 @@ def corpus():
         {'kind': 'value', 'v': vs("\\'")},
         {'kind': 'db', 'xs': [R.cps("x'); DELETE FROM %s; --" % TABLE), R.cps("\\")]},
         {'kind': 'db', 'xs': [R.cps("a\x00b")]},
+        # seeded scenario: small floats must keep all their digits; witness of the open finding float_literal_misrounded
+        {'kind': 'value', 'v': vf(1.5e-07)}, {'kind': 'value', 'v': vf(2.5e-06)}, {'kind': 'value', 'v': vf(7.5e-08)},
+        {'kind': 'value', 'v': vf(-2.2606631148481385e-299)},
         # seeded scenario: a connection with debug on must execute the statement it rendered (UPDATE, DELETE, DDL)
         {'kind': 'db', 'conn': 'debug', 'xs': [R.cps('keep  me'), R.cps('line one\nline two')]},
         {'kind': 'db', 'conn': 'debug_txn', 'xs': [R.cps('a\t\tb'), R.cps(' x ')]},
@@ -330,7 +363,8 @@ def generate(rng, tier):
         else:
             v = rand_seq(rng)
         out.append({'kind': 'value', 'v': v})
-    out += [{'kind': 'value', 'v': {'t': 'f', 'v': repr(x)}} for x in (0.0, -0.0, 0.5, -2.25, 123456.75, 1024.0)]
+    out += [{'kind': 'value', 'v': vf(x)} for x in FLOAT_EDGES]
+    out += [{'kind': 'value', 'v': vf(rand_float(rng))} for _ in range(600 if tier == 'quick' else 8000)]
     out += [stmt_case(rng) for _ in range(nstmt)]
     out += [db_case(rng) for _ in range(ndb)]
     out += [enum_case(rng) for _ in range(ndb // 4)]
@@ -343,6 +377,7 @@ def search_cases(rng, tier):
     out += [{'kind': 'value', 'v': vs(rand_string(rng))} for _ in range(6000)]
     out += [{'kind': 'value', 'v': rand_seq(rng)} for _ in range(1500)]
     out += [{'kind': 'value', 'v': rand_scalar(rng)} for _ in range(1500)]
+    out += [{'kind': 'value', 'v': vf(x)} for x in FLOAT_EDGES] + [{'kind': 'value', 'v': vf(rand_float(rng))} for _ in range(1500)]
     out += [stmt_case(rng) for _ in range(4000)]
     out += [db_case(rng) for _ in range(600)]
     out += [enum_case(rng) for _ in range(150)]
@@ -809,6 +844,7 @@ def coq_case(c, o):
 
 # ---------------------------------------------------------------- oracle: the property itself, on the implementation
 _NUM = re.compile(r'-?\d+$')
+_FLOATTOK = re.compile(r'-?\d+(\.\d+)?([eE][+-]?\d+)?$')
 
 
 def _expect_scalar_text(v):
@@ -912,8 +948,20 @@ def oracle(c, o):
             x = float(v['v'])
             if x != x or x in (float('inf'), float('-inf')):
                 return None if e and e[0] == 'reject' else {'what': 'inf/nan accepted by sqlite', 'observed': e}
-            if not e or e[0] not in ('float', 'int') or float(e[1]) != x:
-                return {'dialect': 'sqlite', 'what': 'float literal does not round-trip', 'observed': e, 'expected': v['v']}
+            # every dialect: one numeric token that denotes exactly this double (correctly rounded decimal -> double)
+            for d, t in zip(R.DIALECTS, o['texts']):
+                txt = R.from_cps(t)
+                try:
+                    ok = bool(_FLOATTOK.match(txt)) and float(txt).hex() == x.hex()
+                except ValueError:
+                    ok = False
+                if not ok:
+                    return {'dialect': d, 'what': 'the float literal is not one numeric token denoting the value', 'text': txt,
+                            'value': v['v']}
+            # sqlite itself: the same double comes back (float.hex, so the sign of zero and the last bit count)
+            if not e or e[0] not in ('float', 'int') or float(e[1]).hex() != x.hex():
+                return {'dialect': 'sqlite', 'what': 'SELECT <float literal> gives another number back', 'float_engine': True,
+                        'text': R.from_cps(o['texts'][0]), 'observed': e, 'expected': v['v']}
             return None
         if v['t'] == 'dec':
             return None
@@ -1014,6 +1062,17 @@ def oracle(c, o):
 
 
 def classify(c, o, f):
+    if c['kind'] == 'value' and c['v']['t'] == 'f' and f.get('float_engine') and f.get('observed') and f['observed'][0] == 'float':
+        # only when the literal itself is right (Python reads it back to the very same double) and sqlite answers the neighbouring double
+        import math
+        x, y = float(c['v']['v']), float(f['observed'][1])
+        try:
+            literal_ok = float(f['text']).hex() == x.hex()
+        except ValueError:
+            literal_ok = False
+        if literal_ok and y in (math.nextafter(x, math.inf), math.nextafter(x, -math.inf)):
+            return 'float_literal_misrounded'
+        return None
     if c['kind'] == 'value' and c['v']['t'] == 'i' and f.get('dialect') == 'sqlite' \
             and not -2 ** 63 <= int(c['v']['v']) < 2 ** 63 and f.get('observed') and f['observed'][0] == 'float':
         return 'sqlite_int_out_of_range'
